@@ -102,20 +102,23 @@ theorem engine_name_injective (a b : Engine) (h : a.name = b.name) : a = b := by
   cases a <;> cases b <;> first | rfl | (simp only [h1, h2, h3, h4, h5] at h; revert h; decide)
 
 /-- **`soxr_engine()` names the engine in use, for every call history.**  The engine installed by `soxr_create` is the one
-    `selectEngine` picks, no API call changes it, and `soxr_engine()` answers its name (unless `fatal_error` has zeroed
-    the control block, in which case the call goes through a NULL pointer: `nullCall`). -/
+    `selectEngine` picks, no API call changes it, and `soxr_engine()` answers its name — or, once `fatal_error` has zeroed
+    the control block (a deferred initialisation failed), the generated placeholder name ("none"; finding F28, repaired). -/
 theorem engine_reported (c : Config) (a : Accepted) (h : validate c = .ok a) (ops : List Op) :
     let s := (run (Api.ofAccepted c a) ops).1
     s.engine = selectEngine (effectiveQ c) c.env c.cpu ∧
-    (s.wiped = false → (step s .engine).2 = .name (selectEngine (effectiveQ c) c.env c.cpu).name) := by
+    (step s .engine).2 = .name (if s.wiped then Gen.engineNameWiped else (selectEngine (effectiveQ c) c.env c.cpu).name) := by
   intro s
   have he : s.engine = selectEngine (effectiveQ c) c.env c.cpu := by
     show (run (Api.ofAccepted c a) ops).1.engine = _
     rw [run_engine]
     exact (C09.create_accepted c a h).2.2.1
   refine ⟨he, ?_⟩
-  intro hw
-  simp [step, hw, he]
+  cases hw : s.wiped <;> simp [step, hw, he]
+
+/-- the placeholder is none of the engine names -/
+theorem wiped_name_is_no_engine (e : Engine) : e.name ≠ Gen.engineNameWiped := by
+  cases e <;> decide
 
 /-! ## length and delay are engine-independent -/
 
